@@ -365,7 +365,42 @@ Proof.
     + apply run_all_ret_ext. intros i _. reflexivity.
 Qed.
 
+Lemma maxl_ge : forall l x, In x l -> x <= maxl l.
+Proof.
+  induction l as [|y l IH]; intros x Hx; [destruct Hx|]. unfold maxl in *. cbn [fold_right].
+  destruct Hx as [<-|H]; [lia|]. specialize (IH x H). lia.
+Qed.
+
 Definition tens_ok (d : nat) (z : Z) (t : tensor) : Prop := wf (shp t) (dat t) /\ ndim t = d /\ dt t = z.
+
+(* the hypothesis on tensors handed to send_tensors: with fx_d10 no agreement on ndim is needed *)
+Definition tens_okx (fx : fixes) (d : nat) (z : Z) (t : tensor) : Prop :=
+  wf (shp t) (dat t) /\ dt t = z /\ (fx_d10 fx = true \/ ndim t = d).
+Lemma tens_ok_x fx d z t : tens_ok d z t -> tens_okx fx d z t.
+Proof. intros (H1 & H2 & H3). split; [exact H1|]. split; [exact H3|right; exact H2]. Qed.
+Lemma tens_okx_ok fx d z t : fx_d10 fx = false -> tens_okx fx d z t -> tens_ok d z t.
+Proof. intros E (H1 & H2 & [H3|H3]); [congruence|]. split; [exact H1|]. split; assumption. Qed.
+
+(* reshape to leading 1-extents and back *)
+Lemma unwrap_wrap k x : unwrap k (wrap k x) = x.
+Proof. induction k as [|k IH]; [reflexivity|]. cbn [wrap unwrap]. exact IH. Qed.
+Lemma skipn_repeat_app {X} (a : X) k s : skipn k (repeat a k ++ s) = s.
+Proof. induction k as [|k IH]; [reflexivity|]. cbn [repeat app skipn]. exact IH. Qed.
+Lemma unlift_lift k t : unlift k (lift k t) = t.
+Proof.
+  destruct t as [z s x]. unfold unlift, lift. cbn [dt shp dat]. rewrite skipn_repeat_app, unwrap_wrap. reflexivity.
+Qed.
+Lemma wf_wrap k s x : wf s x -> wf (repeat 1 k ++ s) (wrap k x).
+Proof.
+  intros H. induction k as [|k IH]; [exact H|]. cbn [repeat app wrap]. apply wf_cons. split; [reflexivity|].
+  constructor; [exact IH|constructor].
+Qed.
+Lemma ndim_lift k t : ndim (lift k t) = k + ndim t.
+Proof. unfold ndim, lift. cbn [shp]. rewrite app_length, repeat_length. reflexivity. Qed.
+Lemma tens_ok_lift mx z t : wf (shp t) (dat t) -> dt t = z -> ndim t <= mx -> tens_ok mx z (lift (mx - ndim t) t).
+Proof.
+  intros Hw Hz Hle. split; [apply wf_wrap, Hw|]. split; [rewrite ndim_lift; lia|exact Hz].
+Qed.
 
 Lemma of_shape_meta t d : ndim t = d -> meta_of (of_shape (shp t)) = (I64, [d]).
 Proof. intros <-. reflexivity. Qed.
@@ -405,25 +440,68 @@ Proof.
     apply tslice_tpad; [apply Ht; lia|apply Hle; lia].
 Qed.
 
-Theorem send_tensors_lossless fx g dst (ts : nat -> tensor) d z : let n := List.length g in
+Lemma send_tensors_code fx g dst (ts : nat -> tensor) d z : let n := List.length g in
+  fx_d10 fx = false ->
   n > 0 -> dst_ok fx g dst -> (forall i, i < n -> tens_ok d z (ts i)) ->
   run_all (respond g) (map (fun i => send_tensors fx g dst i (ts i)) (seq 0 n))
   = Some (map (fun i => Ok (if receives dst i then Some (map ts (seq 0 n)) else None)) (seq 0 n)).
 Proof.
-  intros n Hn Hok Ht. destruct d as [|d'].
+  intros n E10 Hn Hok Ht. destruct d as [|d'].
   - refine (extK g (fun i => simple_send fx g dst i (ts i)) _ _ _ _ _).
     + intros i Hi. apply in_seq in Hi. destruct (Ht i ltac:(lia)) as (_ & Hd & _). unfold send_tensors, ndim in *.
-      destruct (shp (ts i)); [reflexivity|discriminate].
+      rewrite E10. destruct (shp (ts i)); [reflexivity|discriminate].
     + apply (simple_send_run fx g dst ts (z, []) Hn Hok). intros i Hi. destruct (Ht i Hi) as (_ & Hd & Hz).
       unfold meta_of. f_equal; [exact Hz|]. unfold ndim in Hd. destruct (shp (ts i)); [reflexivity|discriminate].
   - refine (extK g (fun i => send_uneven fx g dst i (ts i)) _ _ _ _ _).
     + intros i Hi. apply in_seq in Hi. destruct (Ht i ltac:(lia)) as (_ & Hd & _). unfold send_tensors, ndim in *.
-      destruct (shp (ts i)); [discriminate|reflexivity].
+      rewrite E10. destruct (shp (ts i)); [discriminate|reflexivity].
     + apply (send_uneven_run fx g dst ts (S d') z Hn Hok Ht).
 Qed.
 
+(* fx_d10: the ndims are negotiated first; any mix of ranks is delivered with its own shape *)
+Lemma send_tensors_d10 fx g dst (ts : nat -> tensor) z : let n := List.length g in
+  fx_d10 fx = true ->
+  n > 0 -> dst_ok fx g dst -> (forall i, i < n -> wf (shp (ts i)) (dat (ts i)) /\ dt (ts i) = z) ->
+  run_all (respond g) (map (fun i => send_tensors fx g dst i (ts i)) (seq 0 n))
+  = Some (map (fun i => Ok (if receives dst i then Some (map ts (seq 0 n)) else None)) (seq 0 n)).
+Proof.
+  intros n E10 Hn Hok Ht. assert (Hne : seq 0 n <> []) by apply seq_ne, Hn.
+  unfold send_tensors. rewrite E10.
+  step (fun i => AllGather (of_shape [ndim (ts i)]))
+       (fun _ : nat => RTens (map (fun i => of_shape [ndim (ts i)]) (seq 0 n)));
+    [exact Hne|intros; reflexivity| |].
+  { apply (respond_allgather g (fun i => of_shape [ndim (ts i)]) (I64, [1])); [exact Hne|apply seq_length|].
+    intros; reflexivity. }
+  cbv beta iota zeta delta [cont]. rewrite map_map.
+  rewrite (map_ext (fun x => hd 0 (to_shape (of_shape [ndim (ts x)]))) (fun x => ndim (ts x)))
+    by (intros; rewrite to_of_shape; reflexivity).
+  set (ns := map (fun x => ndim (ts x)) (seq 0 n)). set (mx := maxl ns).
+  assert (Hle : forall i, i < n -> ndim (ts i) <= mx).
+  { intros i Hi. apply maxl_ge. unfold ns. apply (in_map (fun x => ndim (ts x))), in_seq. lia. }
+  destruct (Nat.eqb_spec mx 0) as [E0|Hpos].
+  - apply (simple_send_run fx g dst ts (z, []) Hn Hok). intros i Hi. unfold meta_of. f_equal; [apply Ht, Hi|].
+    specialize (Hle i Hi). unfold ndim in Hle. destruct (shp (ts i)); [reflexivity|cbn in Hle; lia].
+  - bindr_with (fun i => send_uneven fx g dst i (lift (mx - ndim (ts i)) (ts i)))
+               (fun i => if receives dst i
+                         then Some (map (fun i => lift (mx - ndim (ts i)) (ts i)) (seq 0 n)) else None).
+    { apply (send_uneven_run fx g dst (fun i => lift (mx - ndim (ts i)) (ts i)) mx z Hn Hok).
+      intros i Hi. apply tens_ok_lift; [apply Ht, Hi|apply Ht, Hi|apply Hle, Hi]. }
+    apply run_all_ret_ext. intros i _. destruct (receives dst i); [|reflexivity]. cbn [option_map].
+    do 3 f_equal. unfold ns. rewrite map2_map. apply map_ext. intros j. apply unlift_lift.
+Qed.
+
+Theorem send_tensors_lossless fx g dst (ts : nat -> tensor) d z : let n := List.length g in
+  n > 0 -> dst_ok fx g dst -> (forall i, i < n -> tens_okx fx d z (ts i)) ->
+  run_all (respond g) (map (fun i => send_tensors fx g dst i (ts i)) (seq 0 n))
+  = Some (map (fun i => Ok (if receives dst i then Some (map ts (seq 0 n)) else None)) (seq 0 n)).
+Proof.
+  intros n Hn Hok Ht. destruct (fx_d10 fx) eqn:E10.
+  - apply (send_tensors_d10 fx g dst ts z E10 Hn Hok). intros i Hi. destruct (Ht i Hi) as (H1 & H2 & _). split; assumption.
+  - apply (send_tensors_code fx g dst ts d z E10 Hn Hok). intros i Hi. apply (tens_okx_ok fx), Ht, Hi. exact E10.
+Qed.
+
 Corollary dst_only_receives fx g d (ts : nat -> tensor) dd z : let n := List.length g in
-  n > 0 -> dst_ok fx g (Some d) -> (forall i, i < n -> tens_ok dd z (ts i)) ->
+  n > 0 -> dst_ok fx g (Some d) -> (forall i, i < n -> tens_okx fx dd z (ts i)) ->
   exists out, run_all (respond g) (map (fun i => send_tensors fx g (Some d) i (ts i)) (seq 0 n)) = Some out /\
     List.length out = n /\
     nth d out (Exc "") = Ok (Some (map ts (seq 0 n))) /\
@@ -535,8 +613,8 @@ Proof.
                (fun i => if receives dst i then Some (map (fun j => nth k (xss j) (dummy (ms j))) (seq 0 n)) else None).
     { apply (send_tensors_lossless fx g dst (fun i => nth k (xss i) (dummy (ms i))) d z Hn Hok).
       intros i Hi. destruct (Nat.lt_ge_cases k (List.length (xss i))) as [Hlt|Hge].
-      - apply (Ht i Hi), nth_In, Hlt.
-      - rewrite nth_overflow by lia. apply tens_ok_dummy; apply (Hms i Hi). }
+      - apply tens_ok_x, (Ht i Hi), nth_In, Hlt.
+      - rewrite nth_overflow by lia. apply tens_ok_x, tens_ok_dummy; apply (Hms i Hi). }
     refine (extK g (fun i => list_loop fx g dst i (ms i) (map (fun j => List.length (xss j)) (seq 0 n)) (xss i) (S k) fuel
                      (if receives dst i then accR Wg n xss (S k) else untouched Wg)) _ _ _ _ _).
     + intros i _. destruct (receives dst i); [|reflexivity]. f_equal. apply collect_accR.
@@ -680,12 +758,6 @@ Proof.
   destruct (xss n) eqn:E.
   - left. intros i Hi. destruct (Nat.eq_dec i n) as [->|]; [exact E|apply IH; lia].
   - right. exists n. split; [lia|]. rewrite E. discriminate.
-Qed.
-
-Lemma maxl_ge : forall l x, In x l -> x <= maxl l.
-Proof.
-  induction l as [|y l IH]; intros x Hx; [destruct Hx|]. unfold maxl in *. cbn [fold_right].
-  destruct Hx as [<-|H]; [lia|]. specialize (IH x H). lia.
 Qed.
 
 Lemma accR_final Wg n xss K : K > 0 -> (forall j, j < n -> List.length (xss j) <= K) ->
@@ -860,7 +932,7 @@ Qed.
 
 (* ------------------------------------------------------------------ sync_tensor / ideal families *)
 Theorem tensor_sync_lossless fx g dst Wg (ts : nat -> tensor) d z : let n := List.length g in
-  n > 0 -> dst_ok fx g dst -> (forall i, i < n -> tens_ok d z (ts i)) ->
+  n > 0 -> dst_ok fx g dst -> (forall i, i < n -> tens_okx fx d z (ts i)) ->
   run_all (respond g) (map (fun i => sync_tensor fx g dst i Wg (ts i)) (seq 0 n))
   = Some (map (fun i => Ok (if receives dst i then pad_slots Wg (map (fun j => GT (ts j)) (seq 0 n))
                             else untouched Wg)) (seq 0 n)).
@@ -882,7 +954,7 @@ Definition ideal_family (fx : fixes) (g : list nat) (dst : option nat) (Wg : nat
                             else untouched Wg)) (seq 0 (List.length g))).
 
 Lemma ideal_tensor fx g dst Wg (ts : nat -> tensor) d z :
-  List.length g > 0 -> dst_ok fx g dst -> (forall i, i < List.length g -> tens_ok d z (ts i)) ->
+  List.length g > 0 -> dst_ok fx g dst -> (forall i, i < List.length g -> tens_okx fx d z (ts i)) ->
   ideal_family fx g dst Wg (fun i => STensor (ts i)) (fun j => GT (ts j)) GEmpty.
 Proof.
   intros Hn Hok Ht. unfold ideal_family. cbn [state_sync].
@@ -1165,7 +1237,7 @@ Definition filler (s : state) : gs := match s with SDict _ => GD [] | _ => GEmpt
    corresponding losslessness theorem *)
 Definition kind_ok (fx : fixes) (g : list nat) (ss : nat -> state) : Prop :=
   let n := List.length g in
-  (exists ts d z, forall i, i < n -> ss i = STensor (ts i) /\ tens_ok d z (ts i)) \/
+  (exists ts d z, forall i, i < n -> ss i = STensor (ts i) /\ tens_okx fx d z (ts i)) \/
   (exists vs, forall i, i < n -> ss i = SObj (vs i)) \/
   (exists xss d z, (forall i, i < n -> ss i = SList (xss i) /\ forall t, In t (xss i) -> tens_ok d z t) /\
       (fx_d12 fx = true \/ exists i, i < n /\ xss i <> []) /\
@@ -1218,13 +1290,13 @@ Lemma dst_ok_fixed g dst : NoDup g -> (match dst with Some d => d < List.length 
 Proof. intros Hnd H. destruct dst as [d|]; [|exact I]. split; [exact H|exact Hnd]. Qed.
 
 (* any duplicate-free group, any named rank d < n *)
-Corollary send_tensors_lossless_fixed g dst (ts : nat -> tensor) d z : let n := List.length g in
+Corollary send_tensors_lossless_fixed g dst (ts : nat -> tensor) z : let n := List.length g in
   n > 0 -> NoDup g -> (match dst with Some d => d < n | None => True end) ->
-  (forall i, i < n -> tens_ok d z (ts i)) ->
+  (forall i, i < n -> wf (shp (ts i)) (dat (ts i)) /\ dt (ts i) = z) ->
   run_all (respond g) (map (fun i => send_tensors V_fixed g dst i (ts i)) (seq 0 n))
   = Some (map (fun i => Ok (if receives dst i then Some (map ts (seq 0 n)) else None)) (seq 0 n)).
 Proof.
-  intros n Hn Hnd Hd Ht. exact (send_tensors_lossless V_fixed g dst ts d z Hn (dst_ok_fixed g dst Hnd Hd) Ht).
+  intros n Hn Hnd Hd Ht. exact (send_tensors_d10 V_fixed g dst ts z eq_refl Hn (dst_ok_fixed g dst Hnd Hd) Ht).
 Qed.
 
 (* no all-empty exception, any duplicate-free group *)
